@@ -56,8 +56,13 @@ def step (d : Unit) (line : String) : Unit × String :=
   | ["cliq", "file"] =>
     -- the client cannot create its queue (the file is already there): establishment fails before anything is sent
     (d, "c=init-error sent=")
-  | "srv" :: t :: ms =>
-    if t = "deaf" && ms.any isPart then (d, "bad-op") else
+  | "srv" :: t :: ms0 =>
+    -- where the server waits for the DESCRIPTORS (recvmsg, after the memfd metadata) a few plain bytes are a complete, wrong
+    -- answer (no control message), not the beginning of an event header
+    let ms := match ms0 with
+      | a :: b :: c :: _ => if a = "exver:3" && (b = "mmemfd:3" || b = "mmemfdx:3") && c.startsWith "part:" then [a, b, "other:99:3"] else ms0
+      | _ => ms0
+    if t = "deaf" && ms0.any isPart then (d, "bad-op") else
     -- a truncated metadata body only where the server is about to read a metadata message
     if (ms.zipIdx.any (fun (w, i) => w.startsWith "partb:" && !(i == 1 && ms.head? == some "exver:3"))) then (d, "bad-op") else
     match parseTail t, parseMsgs ms with
